@@ -53,17 +53,23 @@ theorem proj_batches_other (p p' : Coord) (c c' : Endpoint) (h : ¬ (p = p' ∧ 
 
 /-! ### the invariant -/
 
-/-- balance of one (producer, endpoint) pair -/
+/-- balance of one (producer, endpoint) pair: received, then discarded (receiver gone), then in
+    flight, is what was emitted -/
 def Bal (s : State ε) (p : Coord) (c : Endpoint) : Prop :=
-  deliveredFrom s p c ++ inflight s p c = s.emitted p c
+  deliveredFrom s p c ++ droppedFrom s p c ++ inflight s p c = s.emitted p c
 
 structure Inv (mode : Coord → Batcher.Mode) (s : State ε) : Prop where
   routed : Routed s
   single : ∀ p c, Batcher.SingleOk (mode p) (s.buffer p c)
+  /-- nothing is discarded for a consumer that still holds its receiver -/
+  alive : ∀ c, s.gone c = false → s.dropped c = []
+  /-- the channel of a receiver that is gone holds nothing -/
+  goneEmpty : ∀ c, s.gone c = true → s.chan c = []
   bal : ∀ p c, Bal s p c
 
 theorem inv_init (mode : Coord → Batcher.Mode) : Inv mode (State.init : State ε) := by
-  refine ⟨⟨?_, ?_, ?_, ?_⟩, ?_, ?_⟩ <;> simp [State.init, Batcher.SingleOk, Bal, deliveredFrom, inflight]
+  refine ⟨⟨?_, ?_, ?_, ?_, ?_⟩, ?_, ?_, ?_, ?_⟩ <;>
+    simp [State.init, Batcher.SingleOk, Bal, deliveredFrom, droppedFrom, inflight]
 
 /-- a remote queue holds nothing for a local pair -/
 theorem mux_local_nil (s : State ε) (hr : Routed s) (p : Coord) (c : Endpoint)
@@ -89,12 +95,17 @@ theorem wire_local_nil (s : State ε) (hr : Routed s) (p : Coord) (c : Endpoint)
 theorem step_recv (mode : Coord → Batcher.Mode) (s : State ε) (h : Inv mode s) (c0 : Endpoint) :
     Inv mode (step mode s (.recv c0)) := by
   simp only [step]
+  cases hg : s.gone c0 with
+  | true => simpa using h
+  | false =>
+  simp only [Bool.false_eq_true, if_false]
   cases hq : s.chan c0 with
   | nil => simpa using h
   | cons m rest =>
     have hm : m.dst = c0 := h.routed.chan c0 m (by simp [hq])
+    have hd : s.dropped c0 = [] := h.alive c0 hg
     simp only
-    refine ⟨⟨?_, ?_, h.routed.mux, h.routed.wire⟩, h.single, ?_⟩
+    refine ⟨⟨?_, ?_, h.routed.dropped, h.routed.mux, h.routed.wire⟩, h.single, h.alive, ?_, ?_⟩
     · intro c m' hm'
       simp only [upd] at hm'
       split at hm'
@@ -110,13 +121,19 @@ theorem step_recv (mode : Coord → Batcher.Mode) (s : State ε) (h : Inv mode s
         · exact h.routed.delivered _ m' hm'
         · exact hm
       · exact h.routed.delivered c m' hm'
+    · intro c hgc
+      simp only [upd]
+      split
+      · rename_i heq; subst heq; rw [hg] at hgc; exact absurd hgc (by simp)
+      · exact h.goneEmpty c hgc
     · intro p c
       have hb := h.bal p c
-      simp only [Bal, deliveredFrom, inflight, upd] at hb ⊢
+      simp only [Bal, deliveredFrom, droppedFrom, inflight, upd] at hb ⊢
       by_cases hc : c = c0
       · subst hc
         simp only [if_true, proj_append, proj_cons, proj_nil, List.append_nil]
-        rw [hq] at hb
+        rw [hq, hd] at hb
+        rw [hd]
         simpa [List.append_assoc] using hb
       · simp only [hc, if_false]
         exact hb
@@ -129,7 +146,8 @@ theorem step_muxSend (mode : Coord → Batcher.Mode) (s : State ε) (h : Inv mod
   | cons m rest =>
     have hm := h.routed.mux k m (by simp [hq])
     simp only
-    refine ⟨⟨h.routed.chan, h.routed.delivered, ?_, ?_⟩, h.single, ?_⟩
+    refine ⟨⟨h.routed.chan, h.routed.delivered, h.routed.dropped, ?_, ?_⟩, h.single, h.alive,
+      h.goneEmpty, ?_⟩
     · intro k' m' hm'
       simp only [upd] at hm'
       split at hm'
@@ -146,7 +164,7 @@ theorem step_muxSend (mode : Coord → Batcher.Mode) (s : State ε) (h : Inv mod
       · exact h.routed.wire k' x hx
     · intro p c
       have hb := h.bal p c
-      simp only [Bal, deliveredFrom, inflight, upd] at hb ⊢
+      simp only [Bal, deliveredFrom, droppedFrom, inflight, upd] at hb ⊢
       by_cases hk : connOf p c = k
       · subst hk
         simp only [if_true, List.map_append, List.map_cons, List.map_nil, proj_append, proj_cons,
@@ -167,9 +185,72 @@ theorem step_demux (mode : Coord → Batcher.Mode) (s : State ε) (h : Inv mode 
     simp only at hk ht hrem
     have hdest : rebuild k.demux t = m.dst := by
       rw [hk, ht]; exact rebuild_tag m.dst
+    have hwire : ∀ k' x, x ∈ upd s.wire k rest k' →
+        k' = connOf x.2.src x.2.dst ∧ x.1 = tagOf x.2.dst ∧ isRemote x.2.src x.2.dst = true := by
+      intro k' x hx
+      simp only [upd] at hx
+      split at hx
+      · subst_vars; exact h.routed.wire _ x (by rw [hq]; simp [hx])
+      · exact h.routed.wire k' x hx
     simp only [hdest]
+    cases hg : s.gone m.dst with
+    | true =>
+      -- the receiver is gone: the message is discarded (demultiplexer.rs:179)
+      have hch : s.chan m.dst = [] := h.goneEmpty _ hg
+      simp only [if_true]
+      refine ⟨⟨h.routed.chan, h.routed.delivered, ?_, h.routed.mux, hwire⟩, h.single, ?_,
+        h.goneEmpty, ?_⟩
+      · intro c m' hm'
+        simp only [upd] at hm'
+        split at hm'
+        · subst_vars
+          simp only [List.mem_append, List.mem_singleton] at hm'
+          rcases hm' with hm' | rfl
+          · exact h.routed.dropped _ m' hm'
+          · rfl
+        · exact h.routed.dropped c m' hm'
+      · intro c hgc
+        simp only [upd]
+        split
+        · rename_i heq; subst heq; rw [hg] at hgc; exact absurd hgc (by simp)
+        · exact h.alive c hgc
+      · intro p c
+        have hb := h.bal p c
+        simp only [Bal, deliveredFrom, droppedFrom, inflight, upd] at hb ⊢
+        by_cases hkk : connOf p c = k
+        · rw [hkk] at hb ⊢
+          rw [hq] at hb
+          simp only [List.map_cons, proj_cons] at hb
+          simp only [if_true]
+          by_cases hc : c = m.dst
+          · subst hc
+            rw [hch] at hb
+            simp only [if_true, proj_append, proj_cons, proj_nil, List.append_nil, hch] at hb ⊢
+            simpa [List.append_assoc] using hb
+          · have hp : part p c m = [] := by
+              have : ¬ (m.src = p ∧ m.dst = c) := fun ⟨_, h2⟩ => hc h2.symm
+              simp [part, this]
+            simp only [hc, if_false]
+            rw [hp] at hb
+            simpa using hb
+        · simp only [hkk, if_false]
+          by_cases hc : c = m.dst
+          · have hp : part p c m = [] := by
+              have : ¬ (m.src = p ∧ m.dst = c) := by
+                intro ⟨h1, h2⟩
+                apply hkk; rw [hk, h1, h2]
+              simp [part, this]
+            simp only [hc, if_true, proj_append, proj_cons, proj_nil, List.append_nil] at hb ⊢
+            rw [← hc] at hb ⊢
+            rw [hp]
+            simpa using hb
+          · simp only [hc, if_false]
+            exact hb
+    | false =>
+    simp only [Bool.false_eq_true, if_false]
     split
-    · refine ⟨⟨?_, h.routed.delivered, h.routed.mux, ?_⟩, h.single, ?_⟩
+    · refine ⟨⟨?_, h.routed.delivered, h.routed.dropped, h.routed.mux, hwire⟩, h.single, h.alive,
+        ?_, ?_⟩
       · intro c m' hm'
         simp only [upd] at hm'
         split at hm'
@@ -179,14 +260,14 @@ theorem step_demux (mode : Coord → Batcher.Mode) (s : State ε) (h : Inv mode 
           · exact h.routed.chan _ m' hm'
           · rfl
         · exact h.routed.chan c m' hm'
-      · intro k' x hx
-        simp only [upd] at hx
-        split at hx
-        · subst_vars; exact h.routed.wire _ x (by rw [hq]; simp [hx])
-        · exact h.routed.wire k' x hx
+      · intro c hgc
+        simp only [upd]
+        split
+        · rename_i heq; subst heq; rw [hg] at hgc; exact absurd hgc (by simp)
+        · exact h.goneEmpty c hgc
       · intro p c
         have hb := h.bal p c
-        simp only [Bal, deliveredFrom, inflight, upd] at hb ⊢
+        simp only [Bal, deliveredFrom, droppedFrom, inflight, upd] at hb ⊢
         by_cases hkk : connOf p c = k
         · rw [hkk] at hb ⊢
           rw [hq] at hb
@@ -216,19 +297,64 @@ theorem step_demux (mode : Coord → Batcher.Mode) (s : State ε) (h : Inv mode 
             exact hb
     · exact h
 
+theorem step_leave (mode : Coord → Batcher.Mode) (s : State ε) (h : Inv mode s) (c0 : Endpoint) :
+    Inv mode (step mode s (.leave c0)) := by
+  simp only [step]
+  cases hg : s.gone c0 with
+  | true => simpa using h
+  | false =>
+  simp only [Bool.false_eq_true, if_false]
+  refine ⟨⟨?_, h.routed.delivered, ?_, h.routed.mux, h.routed.wire⟩, h.single, ?_, ?_, ?_⟩
+  · intro c m hm
+    simp only [upd] at hm
+    split at hm
+    · simp at hm
+    · exact h.routed.chan c m hm
+  · intro c m hm
+    simp only [upd] at hm
+    split at hm
+    · rename_i heq
+      subst heq
+      simp only [List.mem_append] at hm
+      rcases hm with hm | hm
+      · exact h.routed.dropped _ m hm
+      · exact h.routed.chan _ m hm
+    · exact h.routed.dropped c m hm
+  · intro c hgc
+    simp only [upd] at hgc ⊢
+    split
+    · rename_i heq; simp [heq] at hgc
+    · rename_i hne; simp only [hne, if_false] at hgc; exact h.alive c hgc
+  · intro c hgc
+    simp only [upd] at hgc ⊢
+    split
+    · rfl
+    · rename_i hne; simp only [hne, if_false] at hgc; exact h.goneEmpty c hgc
+  · intro p c
+    have hb := h.bal p c
+    simp only [Bal, deliveredFrom, droppedFrom, inflight, upd] at hb ⊢
+    by_cases hc : c = c0
+    · subst hc
+      simp only [if_true, proj_append, proj_nil, List.nil_append]
+      simpa [List.append_assoc] using hb
+    · simp only [hc, if_false]
+      exact hb
+
 theorem step_batcher (mode : Coord → Batcher.Mode) (s : State ε) (h : Inv mode s)
     (p0 : Coord) (c0 : Endpoint) (op : Batcher.Op ε) :
     Inv mode (step mode s (.batcher p0 c0 op)) := by
   simp only [step]
   split
-  · have hcons := Batcher.step_conserve (mode p0) (s.buffer p0 c0) (h.single p0 c0) op
+  · rename_i hen
+    have hcons := Batcher.step_conserve (mode p0) (s.buffer p0 c0) (h.single p0 c0) op
     have hsing := Batcher.step_singleOk (mode p0) (s.buffer p0 c0) (h.single p0 c0) op
-    generalize Batcher.step (mode p0) (s.buffer p0 c0) op = r at hcons hsing
+    generalize Batcher.step (mode p0) (s.buffer p0 c0) op = r at hcons hsing hen
     unfold sendTo
     cases hrem : isRemote p0 c0 with
     | true =>
       simp only [if_true]
-      refine ⟨⟨h.routed.chan, h.routed.delivered, ?_, h.routed.wire⟩, ?_, ?_⟩
+      refine ⟨⟨h.routed.chan, h.routed.delivered, h.routed.dropped, ?_, h.routed.wire⟩, ?_,
+        h.alive, h.goneEmpty, ?_⟩
       · intro k m hm
         simp only [upd] at hm
         split at hm
@@ -245,7 +371,7 @@ theorem step_batcher (mode : Coord → Batcher.Mode) (s : State ε) (h : Inv mod
         · exact h.single p c
       · intro p c
         have hb := h.bal p c
-        simp only [Bal, deliveredFrom, inflight, upd, upd2] at hb ⊢
+        simp only [Bal, deliveredFrom, droppedFrom, inflight, upd, upd2] at hb ⊢
         by_cases hpc : p = p0 ∧ c = c0
         · obtain ⟨rfl, rfl⟩ := hpc
           simp only [and_self, if_true, proj_append, proj_batches_same]
@@ -260,7 +386,8 @@ theorem step_batcher (mode : Coord → Batcher.Mode) (s : State ε) (h : Inv mod
           · exact hb
     | false =>
       simp only [Bool.false_eq_true, if_false]
-      refine ⟨⟨?_, h.routed.delivered, h.routed.mux, h.routed.wire⟩, ?_, ?_⟩
+      refine ⟨⟨?_, h.routed.delivered, h.routed.dropped, h.routed.mux, h.routed.wire⟩, ?_,
+        h.alive, ?_, ?_⟩
       · intro c m hm
         simp only [upd] at hm
         split at hm
@@ -275,9 +402,20 @@ theorem step_batcher (mode : Coord → Batcher.Mode) (s : State ε) (h : Inv mod
         split
         · rename_i hpc; rw [hpc.1]; exact hsing
         · exact h.single p c
+      · -- a receiver that is gone gets nothing: the send is enabled only with no batch to send
+        intro c hgc
+        simp only [upd]
+        split
+        · rename_i heq
+          subst heq
+          have hgc' : s.gone c = true := hgc
+          have hr2 : r.2 = [] := by
+            simpa [hasRoom, hrem, hgc'] using hen
+          simp [hr2, h.goneEmpty _ hgc]
+        · exact h.goneEmpty c hgc
       · intro p c
         have hb := h.bal p c
-        simp only [Bal, deliveredFrom, inflight, upd, upd2] at hb ⊢
+        simp only [Bal, deliveredFrom, droppedFrom, inflight, upd, upd2] at hb ⊢
         by_cases hpc : p = p0 ∧ c = c0
         · obtain ⟨rfl, rfl⟩ := hpc
           have hm := mux_local_nil s h.routed p c hrem (connOf p c)
@@ -302,6 +440,7 @@ theorem step_inv (mode : Coord → Batcher.Mode) (s : State ε) (h : Inv mode s)
   | muxSend k => exact step_muxSend mode s h k
   | demux k => exact step_demux mode s h k
   | recv c => exact step_recv mode s h c
+  | leave c => exact step_leave mode s h c
 
 theorem run_inv (mode : Coord → Batcher.Mode) : ∀ (mvs : List (Move ε)) (s : State ε),
     Inv mode s → Inv mode (run mode s mvs) := by
